@@ -1,3 +1,17 @@
 import J5V.Props.C09
 #print axioms J5V.Props.C09.C09_token_inv_string
 #print axioms J5V.Props.C09.C09_token_inv_regex
+#print axioms J5V.Props.C09.C09_token_inv_ident
+#print axioms J5V.Props.C09.C09_token_inv_int
+#print axioms J5V.Props.C09.C09_token_inv_decimal
+#print axioms J5V.Props.C09.C09_token_inv_comment
+#print axioms J5V.Props.C09.C09_token_inv_blockComment
+#print axioms J5V.Props.C09.C09_token_inv_description
+#print axioms J5V.Props.C09.C09_token_inv_operator
+#print axioms J5V.Props.C09.C09_lexed_tokens_wf
+#print axioms J5V.Props.C09.C09_token_inv
+#print axioms J5V.Props.C09.C09_description_words
+#print axioms J5V.Props.C09.C09_description_reflow_stable
+#print axioms J5V.Props.C09.C09_src_tokenSource
+#print axioms J5V.Props.C09.C09_src_quoteString
+#print axioms J5V.Props.C09.C09_src_description
